@@ -37,6 +37,9 @@ def cells(tier):
     for size in [1, 2]:
         sc = scen(pool(size), [[A("A", 2)], [cancel(rid("A", 1)), FLUSH], [cancel(rid("A", 0)), FLUSH_RE]], outcomes=["ret"], ecb="plain", ccb="plain")
         out.append(cell(f"s{size} A2|cancelA1,flush|cancelA0,flushRE (cancel then flush)", sc, MON))
+    # tasks that have ended but still sit in their (async) end callbacks are "already ended" for cancel()
+    sc = scen(pool(2), [[A("A", 2)], [P]], outcomes=["ret", "exc"], ecb="slow", ccb="plain", slow_ids=[0, 1])
+    out.append(cell("s2 A2 slowecb (ended, in callback)", sc, MON))
     # several start() rounds on one SimpleTaskPool (ended, never flushed ids of an earlier round stay "already ended")
     sc = scen(pool(2, "SimpleTaskPool", ecb="plain", ccb="plain"), [[S("S", 1), S("T", 1), S("U", 1)], [["stop", 1]], [P]], outcomes=["ret"])
     out.append(cell("simple s2 S1,T1,U1 stop1 (rounds)", sc, MON))
